@@ -424,6 +424,10 @@ inductive Item where
   | loopEnd
   deriving Repr
 
+def Item.hasMark (m : Mark) : Item → Bool
+  | .stage marks _ _ => marks.contains m
+  | _ => false
+
 /-- `bits[b]` for the sub-gate operands of a composite (0 if out of range: see `malformed`). -/
 def mapBits (bits sub : List Nat) : List Nat := sub.map fun b => bits.getD b 0
 
@@ -459,7 +463,10 @@ def items : Gate → List Nat → List Mark → List Item
     | none =>
       match bits with
       | [] => []
-      | b :: rest => items g rest (⟨b, .ctrlDot⟩ :: ctx)
+      | b :: rest =>
+        let inner := items g rest (⟨b, .ctrlDot⟩ :: ctx)
+        -- a control of something that draws nothing: the control alone
+        if inner.any (Item.hasMark ⟨b, .ctrlDot⟩) then inner else .stage (⟨b, .ctrlDot⟩ :: ctx) [] true :: inner
   | .comp _ _ ops, bits, ctx => subItems ops bits ctx
   | .loop k body, bits, ctx =>
     match k with
@@ -502,7 +509,11 @@ def basisText : Basis → Option String
 def opItems (nq : Nat) : Op → List Item
   | .gate g bits => items g bits []
   | .cond control target g bits =>
-    items g bits (control.zipIdx.map fun (idx, pos) => ⟨nq + idx, .cctl (target.testBit pos)⟩)
+    let ctx := control.zipIdx.map fun (idx, pos) => ⟨nq + idx, .cctl (target.testBit pos)⟩
+    let inner := items g bits ctx
+    match ctx with
+    | [] => inner
+    | m :: _ => if inner.any (Item.hasMark m) || bits.isEmpty then inner else .stage ctx [] true :: inner
   | .reset q => [.stage [⟨q, .reset⟩] [] false]
   | .resetAll => (List.range nq).map fun q => .stage [⟨q, .reset⟩] [] false
   | .measure q c b => [.stage [⟨q, .meter (basisText b)⟩, ⟨nq + c, .measEnd⟩] [] true]
@@ -524,9 +535,12 @@ structure Fail where
 structure MState where
   next : List Nat                     -- per wire: first column still free for a later operation
   claimed : Nat                       -- number of symbols accounted for
-  loops : List (Nat × Option (Nat × Nat))  -- open loops: count, (first, last) column so far
+  loops : List (Nat × Nat × Option (Nat × Nat))  -- open loops: count, first stage number, (first, last) column so far
   braces : List Brace                 -- header braces not yet accounted for
-  cols : List (Nat × Nat)             -- (column, operation) of every matched stage
+  cells : List (Nat × Nat × Nat × Nat) -- (column, wire, operation, stage number) of every matched mark
+  seq : Nat                           -- stage counter
+  done : List (Brace × Nat × Nat)     -- matched braces with the stage numbers [from, to) of their loop
+  failed : List (Nat × List Mark) := [] -- lenient mode only: stages that did not match
 
 def findCol (g : Grid) (w : Nat) (from_ : Nat) : Option Nat :=
   ((List.range (g.width - from_)).map (from_ + ·)).find? fun c => !(g.cell w c).isWire
@@ -551,17 +565,22 @@ def setNext (next : List Nat) (ws : List Nat) (v : Nat) : List Nat :=
   ws.foldl (fun acc w => acc.set w v) next
 
 def matchItem (g : Grid) (opIdx : Nat) (st : MState) : Item → Except Fail MState
-  | .loopBegin count => .ok { st with loops := (count, none) :: st.loops }
+  | .loopBegin count => .ok { st with loops := (count, st.seq, none) :: st.loops }
   | .loopEnd =>
     match st.loops with
     | [] => .error ⟨"loop", some opIdx, "unbalanced"⟩
-    | (count, span) :: rest =>
+    | (count, seq0, span) :: rest =>
       match span with
       | none => .ok { st with loops := rest }
       | some (f, l) =>
-        if st.braces.contains ⟨f, l, count⟩ then
-          .ok { st with loops := rest, braces := st.braces.erase ⟨f, l, count⟩ }
-        else .error ⟨"loop-brace", some opIdx, s!"no brace {count}x over columns {f}..{l}"⟩
+        -- a brace with this count over the loop's columns; columns it covers beyond them must be empty
+        let fits (b : Brace) : Bool :=
+          b.count = count && b.first ≤ f && l ≤ b.last &&
+          ((List.range (b.last + 1 - b.first)).map (b.first + ·)).all fun c =>
+            (f ≤ c && c ≤ l) || (g.col c).all Sym.isWire
+        match st.braces.find? fits with
+        | some b => .ok { st with loops := rest, braces := st.braces.erase b, done := (b, seq0, st.seq) :: st.done }
+        | none => .error ⟨"loop-brace", some opIdx, s!"no brace {count}x over columns {f}..{l}"⟩
   | .stage marks covers connected =>
     match marks with
     | [] => .ok st
@@ -584,9 +603,10 @@ def matchItem (g : Grid) (opIdx : Nat) (st : MState) : Item → Except Fail MSta
             .ok { st with
               next := setNext st.next (marks.map (·.wire) ++ covers) (c + 1),
               claimed := st.claimed + marks.length,
-              loops := st.loops.map fun (cnt, span) =>
-                (cnt, some (match span with | none => (c, c) | some (f, _) => (f, c))),
-              cols := (c, opIdx) :: st.cols }
+              loops := st.loops.map fun (cnt, s0, span) =>
+                (cnt, s0, some (match span with | none => (c, c) | some (f, _) => (f, c))),
+              cells := marks.map (fun m => (c, m.wire, opIdx, st.seq)) ++ st.cells,
+              seq := st.seq + 1 }
 
 def matchItems (g : Grid) (opIdx : Nat) : List Item → MState → Except Fail MState
   | [], st => .ok st
@@ -596,16 +616,33 @@ def matchOps (nq : Nat) (g : Grid) : List Op → Nat → MState → Except Fail 
   | [], _, st => .ok st
   | op :: rest, k, st => (matchItems g k (opItems nq op) st).bind (matchOps nq g rest (k + 1))
 
+/-- As far as the matching gets (for attributing a structural failure to an operation). -/
+def matchLenient (nq : Nat) (g : Grid) : List Op → Nat → MState → MState
+  | [], _, st => st
+  | op :: rest, k, st =>
+    let st' := (opItems nq op).foldl (fun st it =>
+      match matchItem g k st it with
+      | .ok st' => st'
+      | .error _ => match it with
+        | .stage marks _ _ => { st with failed := st.failed ++ [(k, marks)] }
+        | _ => st) st
+    matchLenient nq g rest (k + 1) st'
+
 def symbolCount (g : Grid) : Nat := (g.map fun row => (row.filter fun s => !s.isWire).length).sum
 
 /-- Every operation appears exactly once, as one connected column group, in program order on every
 wire it touches; nothing else is drawn; loop braces match the loops. -/
 def opsDepicted (c : Circ) (d : Doc) (g : Grid) : Except Fail MState :=
-  (matchOps c.nq g c.ops 0 ⟨List.replicate (c.nq + c.nc) 0, 0, [], d.braces, []⟩).bind fun st =>
+  (matchOps c.nq g c.ops 0 ⟨List.replicate (c.nq + c.nc) 0, 0, [], d.braces, [], 0, [], []⟩).bind fun st =>
     if st.claimed ≠ symbolCount g then
       .error ⟨"extra", none, s!"{symbolCount g} symbols drawn, {st.claimed} belong to operations"⟩
     else if !st.braces.isEmpty then .error ⟨"loop-brace", none, "brace without loop"⟩
-    else .ok st
+    else
+      -- nothing of another operation under a loop brace
+      match st.done.find? fun (b, s0, s1) =>
+          st.cells.any fun (col, _, _, sq) => b.first ≤ col && col ≤ b.last && !(s0 ≤ sq && sq < s1) with
+      | some (b, _, _) => .error ⟨"loop-brace", none, s!"brace over columns {b.first}..{b.last} covers another operation"⟩
+      | none => .ok st
 
 /-- Label column and wire kinds: first `nq` rows quantum, the others classical. -/
 def rowsOk (c : Circ) (d : Doc) : Bool :=
@@ -634,18 +671,30 @@ def check (c : Circ) (d : Doc) : Except Fail MState :=
   else if !rowsOk c d then .error ⟨"rows", none, "not one labelled row per wire, quantum rows first"⟩
   else if !headerOk d then .error ⟨"header", none, "loop header outside the grid"⟩
   else
-    let m := opsDepicted c d g
-    let culprit (col : Nat) : Option Nat :=
-      match m with
-      | .ok st => (st.cols.find? (·.1 = col)).map (·.2)
-      | .error f => f.op
-    match (List.range g.width).find? fun col => !columnConnected c.nq (g.col col) with
-    | some col => .error ⟨"connector", culprit col, s!"column {col}: a connector leaves the grid or ends on no partner symbol"⟩
+    -- the matching is run leniently first, only to attribute a structural failure to an operation
+    let owner (col row : Nat) : Option Nat :=
+      let ms := matchLenient c.nq g c.ops 0 ⟨List.replicate (c.nq + c.nc) 0, 0, [], d.braces, [], 0, [], []⟩
+      match (ms.cells.find? fun (c', w, _, _) => c' = col && w = row).map fun (_, _, k, _) => k with
+      | some k => some k
+      | none =>
+        -- a symbol of no matched operation: the first unmatched stage that wanted such a symbol there,
+        -- else the first operation that does not match
+        match ms.failed.find? fun (_, marks) => marks.any fun m => m.wire = row && accepts m.kind (g.cell row col) with
+        | some (k, _) => some k
+        | none => match opsDepicted c d g with
+          | .error f => f.op
+          | .ok _ => none
+    let bad (p : List Sym → Nat → Sym → Bool) : Option (Nat × Nat) :=
+      (List.range g.width).findSome? fun col =>
+        ((g.col col).zipIdx.find? fun (s, r) => !(p (g.col col) r s)).map fun (_, r) => (col, r)
+    match bad fun col r s => linesOk col r s && extentOk c.nq col r s with
+    | some (col, r) => .error ⟨"connector", owner col r,
+        s!"column {col} row {r}: {repr (g.cell r col)} leaves the grid or ends on no partner symbol"⟩
     | none =>
-      match (List.range g.width).find? fun col =>
-          !((g.col col).zipIdx.all fun (s, r) => spanClearAt (g.col col) r s) with
-      | some col => .error ⟨"span", culprit col, s!"column {col}: a symbol lies under a connector"⟩
-      | none => m
+      match bad spanClearAt with
+      | some (col, r) => .error ⟨"span", owner col r,
+          s!"column {col} row {r}: a symbol lies under {repr (g.cell r col)}"⟩
+      | none => opsDepicted c d g
 
 /-- **The property** on an exported document. -/
 def WellDrawn (d : Doc) (c : Circ) : Prop := (check c d).isOk = true
